@@ -27,7 +27,18 @@ class ReverseBrownian(brownian_base.BaseBrownian):
     def __call__(self, ta, tb=None, return_U=False, return_A=False):
         # Whether or not to negate the statistics depends on the return value of the adjoint SDE. Currently, the adjoint
         # returns negated drift and diffusion, so we don't negate here.
-        return self.base_brownian(-tb, -ta, return_U=return_U, return_A=return_A)
+        out = self.base_brownian(-tb, -ta, return_U=return_U, return_A=return_A)
+        if not (return_U or return_A):
+            return out
+        # The reversed object is the path s -> -W_{-s}: its increment over [ta, tb] is the base increment over
+        # [-tb, -ta], but its space-time integral and Levy area are those of the base interval seen backwards:
+        # U = (tb - ta) W - U_base and A = -A_base. (Otherwise Chen's relation fails for the reversed object.)
+        W, *rest = out
+        if return_U and rest[0] is not None:
+            rest[0] = (tb - ta) * W - rest[0]
+        if return_A and rest[-1] is not None:
+            rest[-1] = -rest[-1]
+        return (W, *rest)
 
     def __repr__(self):
         return f"{self.__class__.__name__}(base_brownian={self.base_brownian})"
